@@ -1,57 +1,87 @@
 #!/usr/bin/env python3
 """Mutation self-test of govc: every patch under selftest/mutants/<prop>/ must make the named
 obligation fail (exit 1), every patch under selftest/harmless/<prop>/ must leave the check green.
-Patches are applied to a scratch worktree of /repo outside /repo and /verif, removed afterwards."""
-import os, subprocess, sys, glob, shutil, json
+The run works on a SNAPSHOT taken when it starts (the commit /repo's HEAD points at plus its
+uncommitted contract files, and a copy of bin/govc, spec/, expected/, replay/, known_findings.json),
+so that work going on in /repo or /verif meanwhile cannot disturb it. Patches are applied to scratch
+worktrees outside /repo and /verif, removed afterwards. VERIF_SELFTEST_JOBS (default 4) patches run
+at a time. Usage: selftest/run.py [<prop>]"""
+import os, subprocess, sys, glob, shutil, json, time
+from concurrent.futures import ThreadPoolExecutor
 V = os.path.dirname(os.path.dirname(os.path.abspath(__file__)))
 REPO = os.environ.get("VERIF_REPO", "/repo")
+JOBS = int(os.environ.get("VERIF_SELFTEST_JOBS", "4"))
 only = sys.argv[1] if len(sys.argv) > 1 else ""
-scratch = "/var/tmp/verif-scratch-%d" % os.getpid()
+base = "/var/tmp/verif-selftest-%d" % os.getpid()
+snap = base + "/snap"
 def sh(cmd, **kw):
     return subprocess.run(cmd, shell=True, capture_output=True, text=True, **kw)
-def fresh():
-    sh(f"git -C {REPO} worktree remove --force {scratch}")
-    shutil.rmtree(scratch, ignore_errors=True)
-    r = sh(f"git -C {REPO} worktree add --detach {scratch} HEAD")
-    if r.returncode != 0:
-        print(r.stderr); sys.exit(2)
-    # uncommitted contract files are part of the tree under test
-    sh(f"cd {REPO} && git ls-files -m -o --exclude-standard | grep verif_contracts.go | while read f; do mkdir -p {scratch}/$(dirname $f); cp $f {scratch}/$f; done")
+
+os.makedirs(snap + "/bin")
+shutil.copy(f"{V}/bin/govc", snap + "/bin/govc")
+for d in ("spec", "expected", "replay"):
+    shutil.copytree(f"{V}/{d}", f"{snap}/{d}")
+shutil.copy(f"{V}/known_findings.json", snap)
+head = sh(f"git -C {REPO} rev-parse HEAD").stdout.strip()
+# uncommitted contract files are part of the tree under test
+os.makedirs(snap + "/contracts")
+sh(f"cd {REPO} && git ls-files -m -o --exclude-standard | grep verif_contracts.go | while read f; do mkdir -p {snap}/contracts/$(dirname $f); cp $f {snap}/contracts/$f; done")
+
+def one(job):
+    i, kind, patch = job
+    prop = os.path.basename(os.path.dirname(patch))
+    scratch = f"{base}/wt{i}"
+    out_dir = f"{base}/out{i}"
+    name = os.path.relpath(patch, V)
+    try:
+        for attempt in range(5):
+            r = sh(f"git -C {REPO} worktree add --detach {scratch} {head}")
+            if r.returncode == 0:
+                break
+            time.sleep(1 + attempt)
+        if r.returncode != 0:
+            return (name, kind, False, [], f"SELFTEST-ERROR {name}: worktree: {r.stderr.strip()}")
+        sh(f"cp -r {snap}/contracts/. {scratch}/")
+        r = sh(f"git -C {scratch} apply {patch}")
+        if r.returncode != 0:
+            return (name, kind, False, [], f"SELFTEST-ERROR {name}: does not apply: {r.stderr.strip()}")
+        expect = ""
+        for ln in open(patch):
+            if ln.startswith("# expect:"):
+                expect = ln.split(":", 1)[1].strip()
+        r = sh(f"{snap}/bin/govc -prop {prop} -repo {scratch} -verif {snap} -scratch {out_dir}")
+        failed = [l.split("failed obligation ")[1].split(":")[0] for l in r.stderr.splitlines() if "failed obligation" in l]
+        if kind == "mutants":
+            ok = r.returncode == 1 and (not expect or any(expect in f for f in failed))
+            msg = ("ok   " if ok else "MISS ") + f"{name}: exit={r.returncode} failed={failed[:4]} expect~{expect}"
+        else:
+            ok = r.returncode == 0
+            msg = ("ok   " if ok else "FALSE-ALARM ") + f"{name}: exit={r.returncode} failed={failed[:4]}"
+        if r.returncode == 2:
+            msg += "\n" + r.stderr[-600:]
+        return (name, kind, ok, failed, msg)
+    finally:
+        sh(f"git -C {REPO} worktree remove --force {scratch}")
+        shutil.rmtree(scratch, ignore_errors=True)
+        shutil.rmtree(out_dir, ignore_errors=True)
+
+jobs = []
+for kind in ("mutants", "harmless"):
+    for patch in sorted(glob.glob(f"{V}/selftest/{kind}/*/*.patch")):
+        if only and os.path.basename(os.path.dirname(patch)) != only:
+            continue
+        jobs.append((len(jobs), kind, patch))
 failures = 0
 results = []
 try:
-    for kind in ("mutants", "harmless"):
-        for patch in sorted(glob.glob(f"{V}/selftest/{kind}/*/*.patch")):
-            prop = os.path.basename(os.path.dirname(patch))
-            if only and prop != only:
-                continue
-            fresh()
-            r = sh(f"git -C {scratch} apply {patch}")
-            if r.returncode != 0:
-                print(f"SELFTEST-ERROR {patch}: does not apply: {r.stderr.strip()}"); failures += 1; continue
-            expect = ""
-            for ln in open(patch):
-                if ln.startswith("# expect:"):
-                    expect = ln.split(":", 1)[1].strip()
-            out_dir = f"/var/tmp/verif-selftest-out-{os.getpid()}"
-            r = sh(f"{V}/bin/govc -prop {prop} -repo {scratch} -verif {V} -scratch {out_dir}")
-            failed = [l.split("failed obligation ")[1].split(":")[0] for l in r.stderr.splitlines() if "failed obligation" in l]
-            shutil.rmtree(out_dir, ignore_errors=True)
-            name = os.path.relpath(patch, V)
-            if kind == "mutants":
-                ok = r.returncode == 1 and (not expect or any(expect in f for f in failed))
-                print(("ok   " if ok else "MISS ") + f"{name}: exit={r.returncode} failed={failed[:4]} expect~{expect}")
-            else:
-                ok = r.returncode == 0
-                print(("ok   " if ok else "FALSE-ALARM ") + f"{name}: exit={r.returncode} failed={failed[:4]}")
-            if r.returncode == 2:
-                print(r.stderr[-600:])
+    with ThreadPoolExecutor(max_workers=JOBS) as ex:
+        for name, kind, ok, failed, msg in ex.map(one, jobs):
+            print(msg, flush=True)
             results.append({"patch": name, "kind": kind, "ok": ok, "failed": failed})
             if not ok:
                 failures += 1
 finally:
-    sh(f"git -C {REPO} worktree remove --force {scratch}")
-    shutil.rmtree(scratch, ignore_errors=True)
+    shutil.rmtree(base, ignore_errors=True)
     sh(f"git -C {REPO} worktree prune")
 print(f"selftest: {len(results)} patches, {failures} problems")
 sys.exit(1 if failures else 0)
